@@ -302,3 +302,39 @@ func VF_C07_Complex(sel, _ int) {
 func negZero() float64 { z := 0.0; return -z }
 func posInf() float64  { z := 0.0; return 1 / z }
 func nan() float64     { z := 0.0; return z / z }
+
+// VF_C07_AnyNumeric: the `any` collator over numeric dynamic types of different widths and signedness
+// (byte, uint16, uint64, int8, int64, rune, uint): a value keeps its meaning whatever it is compared with.
+func VF_C07_AnyNumeric(types, _ int) {
+	mk := func(tag string, t int) any {
+		switch t {
+		case 0:
+			return vf.Uint8(tag)
+		case 1:
+			return vf.Uint16(tag)
+		case 2:
+			return vf.Uint64(tag)
+		case 3:
+			return vf.Int8(tag)
+		case 4:
+			return vf.Int64(tag)
+		case 5:
+			return vf.Rune(tag)
+		}
+		return vf.Uint(tag)
+	}
+	a, b, c := mk("a", types%7), mk("b", types/7%7), mk("c", types/49%7)
+	// only the order laws: whether CompareValues calls a uint16 and a uint64 of the same magnitude equal is
+	// outside the property (its universe for the any collator is the canonical dynamic types)
+	k := age.Collator[any]().Make()
+	vf.Budget(100 * listBudget)
+	raa, rab, rba, rbc, rac := k.RankValues(a, a), k.RankValues(a, b), k.RankValues(b, a), k.RankValues(b, c), k.RankValues(a, c)
+	vf.Assert("reflexive", raa == eq)
+	vf.Assert("mirror", vf.And((rab == lt) == (rba == gt), (rab == eq) == (rba == eq)))
+	vf.Assert("transitive", vf.Implies(vf.And(rab != gt, rbc != gt), rac != gt))
+	vf.Assert("transitive-strict", vf.Implies(vf.And(rab != gt, rbc == lt), rac == lt))
+	vf.Assert("depth-restored", k.GetDepth() == 0)
+	vf.Assert("same-answer-on-repeat", k.RankValues(a, b) == rab)
+	vf.BudgetReset()
+	vf.Reach("end")
+}
